@@ -136,7 +136,13 @@ def run_property(prop, tier, specs, level, title, assumptions, functions_hint=()
         limits.extend(pre_info.get('limits', []))
     engine.CONTINUE_SIGS = set(sg for k in known if k.get('property') == prop and k.get('status', 'open') == 'open'
                                for sg in k.get('signatures', []))
+    only = os.environ.get('VERIF_ONLY_SPEC')
+    if only:
+        specs = [s_ for s_ in specs if s_.name in only.split(',')]
+    dbg_budget = os.environ.get('VERIF_BUDGET_S')
     for spec in specs:
+        if dbg_budget:
+            spec.budget_s = float(dbg_budget)
         engine.LOGIC = spec.logic
         fn = load_func(spec.module, spec.func)
         P = spec.params
